@@ -46,7 +46,7 @@ def new_event(t, k, src, m=(), how='-'):
     return {'t': t, 'k': k, 'src': src, 'm': list(m), 'how': how, 'outcome': 'ok', 'exc': '', 'hasPre': False, 'pre': [],
             'hasObs': False, 'obs': [], 'all': [], 'ret': [], 'eff': [], 'hasRef': False, 'res': '', 'ref': '',
             'solo': {'has': False, 'det': False, 'outcome': '', 'exc': '', 'obs': [], 'ret': [], 'eff': [], 'res': ''},
-            'regOk': False, 'reg': [], 'expect': {'has': False, 'store': []}}
+            'regOk': False, 'reg': [], 'expect': {'has': False, 'store': []}, 'heap': [], 'reps': []}
 
 
 def fill(ev, r):
@@ -56,6 +56,7 @@ def fill(ev, r):
     ev['hasPre'], ev['pre'] = True, r.get('pre', [])
     ev['hasObs'], ev['obs'] = True, r.get('obs', [])
     ev['ret'], ev['eff'], ev['res'] = r.get('ret', []), r.get('eff', []), r.get('res', '')
+    ev['heap'], ev['reps'] = r.get('heap', []), r.get('reps', [])
     if r.get('reg') is not None:
         ev['regOk'], ev['reg'] = True, r['reg']
     if 'desc' in r:
@@ -78,7 +79,7 @@ def expand_exit(ev, levels):
     for i in range(levels):
         e = dict(ev)
         if i < levels - 1:
-            e = dict(e, hasObs=False, obs=[], regOk=False, reg=[], all=[],
+            e = dict(e, hasObs=False, obs=[], regOk=False, reg=[], all=[], heap=[],
                      solo=dict(ev['solo'], has=False))
         if i > 0:
             e['hasPre'], e['pre'] = False, []
@@ -97,44 +98,95 @@ class Interner:
 
 
 def build_batch(traces: list, maxt: int) -> dict:
-    """JSON for OptionsTrace.tla. Result texts become small integers (equal text <=> equal id)."""
+    """JSON for OptionsTrace.tla. Result texts become small integers (equal text <=> equal id). `cells` is the initial
+    heap: every immutable value is its own cell (id = content text), every mutable object of a run has id '@...'."""
     it = Interner()
     out = []
+    vals = {C.vrepr(v) for vs in C.VALID.values() for v in vs}
+    heap = {}
     for tr in traces:
+        own = []
+        for sp in tr.get('cells', ()):
+            text = C.cell_text(sp, C.make_cell(sp))
+            own.append([sp['id'], text])
+            if sp['valid']:
+                vals.add(text)
         steps = []
         for ev in tr['steps']:
             e = {k: v for k, v in ev.items() if k not in ('desc', 'msg', 'cmd')}
             e['res'] = it(ev['res'])
             e['ref'] = it(ev['ref'])
+            e['reps'] = [it(x) for x in ev['reps']]
             e['solo'] = dict(ev['solo'], res=it(ev['solo']['res']))
+            for x in ev['m']:
+                if not x['v'].startswith('@'):
+                    heap[x['v']] = x['v']
             steps.append(e)
-        out.append({'id': tr['id'], 'steps': steps})
-    vals = sorted({C.vrepr(v) for vs in C.VALID.values() for v in vs})
-    return {'defaults': C.pairs(C.DEFAULTS), 'vals': vals, 'maxt': maxt, 'traces': out}
+        out.append({'id': tr['id'], 'steps': steps, 'cells': own})
+    for n, v in C.pairs(C.DEFAULTS):
+        heap[v] = v
+    for v in vals:
+        heap.setdefault(v, v)
+    return {'defaults': C.pairs(C.DEFAULTS), 'vals': sorted(vals), 'cells': [[k, heap[k]] for k in sorted(heap)],
+            'maxt': maxt, 'traces': out}
 
 
 # ----------------------------------------------------------------------------------------------------------------------
 # concretisation of abstract maps
 
-class Concretiser:
-    """o1.. -> distinct documented options, v0 -> default, v1/v2 -> other valid values, bad -> an invalid value,
-    unk -> a name that is not a (global) option."""
+ABS = {'c0': 'v0', 'c1': 'v1', 'c2': 'v2', 'cb': 'bad'}
 
-    def __init__(self, rng: random.Random, pool=None, n=3):
-        names = rng.sample(pool or C.OPTION_NAMES, n)
+
+class Concretiser:
+    """o1.. -> distinct documented options; cell c0 -> the default, c1/c2 -> other valid values, cb -> an invalid value;
+    unk -> a name that is not a (global) option. Where the documentation allows a mutable object (the `op` option: list
+    of lines, AST instance, FST) the value is a per-thread *object* created once per run and passed by reference
+    every time that abstract cell is used (per call, into the defaults, into blocks)."""
+
+    def __init__(self, rng: random.Random, pool=None, n=3, trace_id=0, threads=(1, 2, 3)):
+        pool = list(pool or C.OPTION_NAMES)
+        names = rng.sample(pool, n)
+        if 'op' in pool and 'op' not in names and rng.random() < 0.45:
+            names[0] = 'op'
+            if 'op_side' not in names and rng.random() < 0.6:
+                names[1] = 'op_side'
         self.opt = {f'o{i + 1}': nm for i, nm in enumerate(names)}
         self.val = {}
+        self.specs = {t: {} for t in threads}
+        self.trace_id = trace_id
         for nm in names:
             others = [v for v in C.VALID[nm][1:]]
             rng.shuffle(others)
             self.val[nm] = {'v0': C.VALID[nm][0], 'v1': others[0], 'v2': others[1 % len(others)]}
+            for vk in ('v1', 'v2'):
+                if nm in C.MUTABLE_KINDS and rng.random() < 0.75:
+                    kind, init = rng.choice(C.MUTABLE_KINDS[nm])
+                    self.val[nm][vk] = ('cell', vk)
+                    for t in threads:
+                        cid = f'@{trace_id}.{t}.{vk}'
+                        self.specs[t][cid] = C.cell_spec(cid, nm, kind, init)
+            if nm in C.MUTABLE_INVALID:
+                kind, init = rng.choice(C.MUTABLE_INVALID[nm])
+                for t in threads:
+                    cid = f'@{trace_id}.{t}.bad.{nm}'
+                    self.specs[t][cid] = C.cell_spec(cid, nm, kind, init, valid=False)
         self.rng = rng
 
-    def kwargs(self, pairs_, call=False):
+    def all_specs(self):
+        return {i: sp for d in self.specs.values() for i, sp in d.items()}
+
+    def _value(self, nm, vk, t):
+        v = self.val[nm][vk]
+        if isinstance(v, tuple) and v and v[0] == 'cell':
+            return C.CellRef(f'@{self.trace_id}.{t}.{v[1]}')
+        return v
+
+    def kwargs(self, pairs_, call=False, t=1):
         """-> (kwargs in call order, unknown names used)"""
         rng = self.rng
         items, unknown = [], []
         for n, v in pairs_:
+            v = ABS.get(v, v)
             if n == 'unk':
                 nm = rng.choice(C.UNKNOWN_CALL if call else C.UNKNOWN_GLOBAL)
                 val = rng.choice([True, False, 'auto', None, 1])
@@ -143,18 +195,24 @@ class Concretiser:
             else:
                 nm = self.opt[n]
                 if v == 'bad':
-                    items.append((nm, rng.choice(C.INVALID[nm]), True))
+                    cid = f'@{self.trace_id}.{t}.bad.{nm}'
+                    if cid in self.specs.get(t, {}) and rng.random() < 0.3:
+                        items.append((nm, C.CellRef(cid), True))
+                    else:
+                        items.append((nm, rng.choice(C.INVALID[nm]), True))
                 else:
-                    items.append((nm, self.val[nm][v], False))
+                    items.append((nm, self._value(nm, v, t), False))
         rng.shuffle(items)
         if rng.random() < 0.6:      # rejected entries last: the accepted ones would be applied first by a sloppy update
             items.sort(key=lambda x: x[2])
         return {nm: val for nm, val, _ in items}, unknown
 
-    def store(self, pairs_):
+    def store(self, pairs_, t=1):
+        """The model's store as real values; mutable ones as *fresh* objects with the cell's initial contents."""
         d = dict(C.DEFAULTS)
         for n, v in pairs_:
-            d[self.opt[n]] = self.val[self.opt[n]][v]
+            x = self._value(self.opt[n], ABS.get(v, v), t)
+            d[self.opt[n]] = C.make_cell(self.specs[t][x.id]) if isinstance(x, C.CellRef) else x
         return d
 
 
@@ -167,9 +225,9 @@ class Controller:
         self.w = {}
         self.seq = itertools.count()
 
-    def spawn(self, tid, srcs=(), stepper=False):
+    def spawn(self, tid, srcs=(), cellspecs=()):
         ch = C.QueueChan()
-        th = threading.Thread(target=C.interpret, args=(ch, tid, srcs, self.reglog, self.seq), daemon=True)
+        th = threading.Thread(target=C.interpret, args=(ch, tid, srcs, self.reglog, self.seq, cellspecs), daemon=True)
         self.w[tid] = (th, ch)
         th.start()
         return self.send(tid, {'k': 'spawn'})
@@ -203,7 +261,8 @@ class Controller:
 
 def replay_option_behaviour(beh: list, rng: random.Random, trace_id: int, reglog=None) -> dict:
     """One OptionsSim behaviour against real threads; returns a trace for OptionsTrace."""
-    cz = Concretiser(rng)
+    cz = Concretiser(rng, trace_id=trace_id)
+    specs = cz.all_specs()
     ctl = Controller(reglog)
     tnum = {'t1': 1, 't2': 2, 't3': 3}
     steps = []
@@ -212,7 +271,7 @@ def replay_option_behaviour(beh: list, rng: random.Random, trace_id: int, reglog
     i = 0
     SRC = 'G-options'
     try:
-        r = ctl.spawn(1)   # the model's Main (alive from the start) is a real thread of its own here
+        r = ctl.spawn(1, cellspecs=list(cz.specs[1].values()))   # the model's Main (alive from the start) is a real thread of its own here
         depth[1] = 0
         ev = fill(new_event(1, 'spawn', SRC), r)
         ev['hasPre'] = False
@@ -224,7 +283,7 @@ def replay_option_behaviour(beh: list, rng: random.Random, trace_id: int, reglog
             if k == 'spawn':
                 if t in ctl.w:
                     ctl.die(t)  # cannot happen (model spawns only dead threads)
-                r = ctl.spawn(t)
+                r = ctl.spawn(t, cellspecs=list(cz.specs[t].values()))
                 depth[t] = 0
                 ev = fill(new_event(t, 'spawn', SRC), r)
                 ev['hasPre'] = False
@@ -236,15 +295,15 @@ def replay_option_behaviour(beh: list, rng: random.Random, trace_id: int, reglog
                 ev['all'] = ctl.others(t)
                 steps.append(ev)
             elif k in ('set', 'enter', 'call'):
-                kw, unknown = cz.kwargs(a['m'], call=(k == 'call'))
+                kw, unknown = cz.kwargs(a['m'], call=(k == 'call'), t=t)
                 cmd = {'k': k, 'kw': kw}
                 if k == 'call':
-                    cmd['probes'] = sorted(set(relevant + [rng.randrange(len(C.PROBES)), rng.choice((0, 14, 14))]))
+                    cmd['probes'] = sorted(set(relevant + [rng.randrange(len(C.PROBES)), rng.choice((0, 14, 14)), 15]))
                 r = ctl.send(t, cmd)
-                ev = fill(new_event(t, k, SRC, C.mjson(kw, unknown)), r)
-                ev['cmd'] = {'k': k, 'kw': {n: C.vrepr(v) for n, v in kw.items()}}
+                ev = fill(new_event(t, k, SRC, C.mjson(kw, unknown, specs)), r)
+                ev['cmd'] = {'k': k, 'kw': {n: repr(v) if isinstance(v, C.CellRef) else C.vrepr(v) for n, v in kw.items()}}
                 if k == 'call' and a['ok'] and r.get('outcome') == 'ok':
-                    eff = cz.store(a['eff'])      # the model's effective options of this call
+                    eff = cz.store(a['eff'], t)   # the model's effective options of this call (fresh objects)
                     ev['hasRef'], ev['ref'] = True, C.probe_ref(cmd['probes'], eff)
                 if k == 'enter' and r.get('outcome') == 'ok':
                     depth[t] += 1
@@ -265,7 +324,7 @@ def replay_option_behaviour(beh: list, rng: random.Random, trace_id: int, reglog
             last = beh[i]       # (for merged exits: the last merged model step)
             post = [p for p in last.get('post', []) if p['t'] == a['t']]
             if post and steps and steps[-1]['t'] == t and k != 'die':
-                steps[-1]['expect'] = {'has': True, 'store': C.pairs(cz.store(post[0]['store']))}
+                steps[-1]['expect'] = {'has': True, 'store': C.pairs(cz.store(post[0]['store'], t))}
             i += 1
         # leave every block that is still open, then end the threads
         for t in sorted(ctl.w):
@@ -283,23 +342,45 @@ def replay_option_behaviour(beh: list, rng: random.Random, trace_id: int, reglog
                 ctl.die(t)
             except Exception:  # noqa: BLE001
                 pass
-    return {'id': trace_id, 'steps': steps, 'concrete': cz.opt}
+    return {'id': trace_id, 'steps': steps, 'concrete': cz.opt, 'cells': list(specs.values())}
 
 
 # ----------------------------------------------------------------------------------------------------------------------
 # free-running stress (V)
 
-def rand_kwargs(rng, names, call=False, p_bad=0.12, p_unk=0.08):
+def cell_pool(rng, trace_id, tid):
+    """This thread's own mutable option objects: three valid `op` objects and one list that is not a valid value."""
+    specs = {}
+    for j, (kind, init) in enumerate(rng.sample(C.MUTABLE_KINDS['op'], 3)):
+        cid = f'@{trace_id}.{tid}.op{j}'
+        specs[cid] = C.cell_spec(cid, 'op', kind, init)
+    nm = rng.choice(sorted(C.MUTABLE_INVALID))
+    kind, init = rng.choice(C.MUTABLE_INVALID[nm])
+    cid = f'@{trace_id}.{tid}.bad'
+    specs[cid] = C.cell_spec(cid, nm, kind, init, valid=False)
+    return specs
+
+
+def rand_kwargs(rng, names, call=False, p_bad=0.12, p_unk=0.08, pool=None):
     n = rng.choice((1, 1, 1, 2, 2, 3))
     items, unknown = [], []
-    for nm in rng.sample(names, min(n, len(names))):
+    chosen = rng.sample(names, min(n, len(names)))
+    if pool and 'op' in names and 'op' not in chosen and rng.random() < 0.25:
+        chosen[0] = 'op'
+        if 'op_side' not in chosen and rng.random() < 0.5:
+            chosen.append('op_side')
+    for nm in chosen:
         r = rng.random()
+        good = [sp for sp in (pool or {}).values() if sp['option'] == nm and sp['valid']]
+        badc = [sp for sp in (pool or {}).values() if sp['option'] == nm and not sp['valid']]
         if r < p_unk:
             u = rng.choice(C.UNKNOWN_CALL if call else C.UNKNOWN_GLOBAL)
             items.append((u, rng.choice([True, False, None, 'auto']), True))
             unknown.append(u)
         elif r < p_unk + p_bad:
-            items.append((nm, rng.choice(C.INVALID[nm]), True))
+            items.append((nm, C.CellRef(rng.choice(badc)['id']) if badc and rng.random() < 0.5 else rng.choice(C.INVALID[nm]), True))
+        elif good and rng.random() < 0.7:
+            items.append((nm, C.CellRef(rng.choice(good)['id']), False))      # the same object again and again
         else:
             items.append((nm, rng.choice(C.VALID[nm]), False))
     if rng.random() < 0.6:
@@ -308,7 +389,7 @@ def rand_kwargs(rng, names, call=False, p_bad=0.12, p_unk=0.08):
     return kw, unknown, any(b for _, _, b in items)
 
 
-def gen_script(rng: random.Random, n: int, flavour: str, ntrees: int) -> list:
+def gen_script(rng: random.Random, n: int, flavour: str, ntrees: int, pool=None) -> list:
     """Commands for one thread. The generator tracks block depth from the documented validity of what it passes."""
     cmds = []
     depth = 0
@@ -326,11 +407,11 @@ def gen_script(rng: random.Random, n: int, flavour: str, ntrees: int) -> list:
         if k == 'edit':
             cmds.append({'k': 'edit', 'tree': rng.randrange(ntrees), 'seed': rng.randrange(1 << 30)})
         elif k == 'call':
-            kw, unknown, bad = rand_kwargs(rng, C.OPTION_NAMES, call=True)
-            pr = sorted({i for nm in kw if nm in C.PROBE_FOR for i in C.PROBE_FOR[nm]} | {rng.randrange(len(C.PROBES)), rng.choice((1, 14))})
+            kw, unknown, bad = rand_kwargs(rng, C.OPTION_NAMES, call=True, pool=pool)
+            pr = sorted({i for nm in kw if nm in C.PROBE_FOR for i in C.PROBE_FOR[nm]} | {rng.randrange(len(C.PROBES)), rng.choice((1, 14, 15, 15))})
             cmds.append({'k': 'call', 'kw': kw, 'unknown': unknown, 'probes': pr})
         elif k in ('set', 'enter'):
-            kw, unknown, bad = rand_kwargs(rng, names)
+            kw, unknown, bad = rand_kwargs(rng, names, pool=pool)
             if k == 'enter' and rng.random() < 0.1:
                 kw, unknown, bad = {}, [], False
             cmds.append({'k': k, 'kw': kw, 'unknown': unknown})
@@ -349,13 +430,13 @@ def gen_script(rng: random.Random, n: int, flavour: str, ntrees: int) -> list:
     return cmds
 
 
-def run_script(cmds, tid, srcs, reglog, start=None):
+def run_script(cmds, tid, srcs, reglog, start=None, cellspecs=()):
     ch = C.ListChan([{'k': 'spawn'}] + cmds)
 
     def body():
         if start is not None:
             start.wait()
-        C.interpret(ch, tid, srcs, reglog)
+        C.interpret(ch, tid, srcs, reglog, None, cellspecs)
 
     th = threading.Thread(target=body, daemon=True)
     return th, ch
@@ -370,10 +451,11 @@ def stress(seed: int, nthreads: int, nsteps: int, flavour: str, corpus: list, re
     for j in range(nthreads):
         ntrees = rng.choice((1, 2)) if flavour == 'mixed' else 0
         srcs = [rng.choice(corpus) for _ in range(ntrees)]
-        scripts.append((gen_script(rng, nsteps, flavour, max(1, ntrees)), srcs))
+        pool = cell_pool(rng, base_id + j + 1, j + 1)
+        scripts.append((gen_script(rng, nsteps, flavour, max(1, ntrees), pool), srcs, pool))
     start = threading.Barrier(nthreads)
     old = sys.getswitchinterval()
-    runs = [run_script(cmds, j + 1, srcs, reglog, start) for j, (cmds, srcs) in enumerate(scripts)]
+    runs = [run_script(cmds, j + 1, srcs, reglog, start, list(pool.values())) for j, (cmds, srcs, pool) in enumerate(scripts)]
     sys.setswitchinterval(switch)
     try:
         for th, _ in runs:
@@ -386,15 +468,15 @@ def stress(seed: int, nthreads: int, nsteps: int, flavour: str, corpus: list, re
     solos = []
     for rep in range(2):
         row = []
-        for j, (cmds, srcs) in enumerate(scripts):
-            th, ch = run_script(cmds, 100 + j + 1, srcs, None)
+        for j, (cmds, srcs, pool) in enumerate(scripts):
+            th, ch = run_script(cmds, 100 + j + 1, srcs, None, None, list(pool.values()))   # fresh objects per run
             th.start()
             th.join(600)
             row.append(ch.replies)
         solos.append(row)
     traces = []
     SRC = 'V-stress-' + flavour
-    for j, (cmds, srcs) in enumerate(scripts):
+    for j, (cmds, srcs, pool) in enumerate(scripts):
         t = j + 1
         conc = runs[j][1].replies
         sa, sb = solos[0][j], solos[1][j]
@@ -406,7 +488,7 @@ def stress(seed: int, nthreads: int, nsteps: int, flavour: str, corpus: list, re
             kw = c.get('kw', {}) if k != 'edit' else r.get('opts', {})
             if k == 'edit' and not C.classifiable(kw):
                 kw = {}     # per-call options of the shared edit driver outside the documented tables: not judged
-            m = C.mjson(kw, c.get('unknown', ()))
+            m = C.mjson(kw, c.get('unknown', ()), pool)
             ev = fill(new_event(t, k, SRC, m, how=c.get('how', '-')), r)
             ev['cmd'] = {kk: (vv if kk != 'kw' else {n: C.vrepr(v) for n, v in vv.items()}) for kk, vv in c.items()}
             if k == 'spawn':
@@ -419,7 +501,7 @@ def stress(seed: int, nthreads: int, nsteps: int, flavour: str, corpus: list, re
             else:
                 steps.append(ev)
         complete = len(conc) == len(allc) and len(sa) == len(allc)
-        traces.append({'id': base_id + t, 'steps': steps, 'complete': complete, 'script': {'cmds': cmds, 'srcs': srcs},
+        traces.append({'id': base_id + t, 'steps': steps, 'complete': complete, 'cells': list(pool.values()),
                        'nsolo_det': sum(1 for e in steps if e['solo']['det'])})
     ev = new_event(0, 'call', SRC)
     ev['hasPre'], ev['pre'], ev['hasObs'], ev['obs'], ev['eff'] = True, main_obs, True, main_obs, main_obs
@@ -444,7 +526,7 @@ def concretise_thread_scripts(beh, cz):
         cmds = []
         for op in sc['ops']:
             if op['k'] == 'edit':
-                kw, unknown = cz.kwargs(op['m'], call=True)
+                kw, unknown = cz.kwargs(op['m'], call=True, t=t)
                 rejected = any(n == 'unk' or v == 'bad' for n, v in op['m'])
                 cmds.append({'k': 'tedit', 'tree': ROOT_OF[op['r']][1], 'node': 0 if op['n'] == 'a' else 1,
                              'opt': cz.opt[op['o']], 'kw': kw, 'unknown': unknown, 'fault': op['fault'],
@@ -452,15 +534,16 @@ def concretise_thread_scripts(beh, cz):
             elif op['k'] == 'exit':
                 cmds.append({'k': 'exit', 'how': op['how'], 'levels': 1})
             else:
-                kw, unknown = cz.kwargs(op['m'])
+                kw, unknown = cz.kwargs(op['m'], t=t)
                 cmds.append({'k': op['k'], 'kw': kw, 'unknown': unknown})
         scripts[t] = cmds
     return scripts
 
 
 def replay_thread_behaviour(beh: dict, rng: random.Random, trace_id: int, reglog=None, hooks=True) -> dict:
-    cz = Concretiser(rng, pool=TEDIT_OPTS, n=2)
+    cz = Concretiser(rng, pool=TEDIT_OPTS, n=2, trace_id=trace_id)
     scripts = concretise_thread_scripts(beh, cz)
+    specs = cz.all_specs()
     tnum = {'t1': 1, 't2': 2, 't3': 3}
     ctl = Controller(reglog)
     SRC = 'G-threads'
@@ -471,7 +554,7 @@ def replay_thread_behaviour(beh: dict, rng: random.Random, trace_id: int, reglog
 
     def event_of(t, c, r):
         k = 'edit' if c['k'] == 'tedit' else c['k']
-        ev = fill(new_event(t, k, SRC, C.mjson(c.get('kw', {}), c.get('unknown', ())), how=c.get('how', '-')), r)
+        ev = fill(new_event(t, k, SRC, C.mjson(c.get('kw', {}), c.get('unknown', ()), specs), how=c.get('how', '-')), r)
         ev['cmd'] = {kk: (vv if kk != 'kw' else {n: C.vrepr(v) for n, v in vv.items()}) for kk, vv in c.items()}
         return ev
 
@@ -490,14 +573,14 @@ def replay_thread_behaviour(beh: dict, rng: random.Random, trace_id: int, reglog
                 steps.append(event_of(t, inflight.pop(t), r))
 
     try:
-        r = ctl.spawn(1, [C.TEDIT_SRC] * NTREES[1])
+        r = ctl.spawn(1, [C.TEDIT_SRC] * NTREES[1], list(cz.specs[1].values()))
         ev = fill(new_event(1, 'spawn', SRC), r)
         ev['hasPre'] = False
         steps.append(ev)
         for st in beh['sched']:
             t, act = tnum[st['t']], st['act']
             if act == 'spawn':
-                r = ctl.spawn(t, [C.TEDIT_SRC] * NTREES[t])
+                r = ctl.spawn(t, [C.TEDIT_SRC] * NTREES[t], list(cz.specs[t].values()))
                 ev = fill(new_event(t, 'spawn', SRC), r)
                 ev['hasPre'] = False
                 steps.append(ev)
@@ -538,11 +621,11 @@ def replay_thread_behaviour(beh: dict, rng: random.Random, trace_id: int, reglog
                 pass
     # the same scripts alone
     for t, cmds in scripts.items():
-        th, ch = run_script([dict(c) for c in cmds], 100 + t, [C.TEDIT_SRC] * NTREES[t], None)
+        th, ch = run_script([dict(c) for c in cmds], 100 + t, [C.TEDIT_SRC] * NTREES[t], None, None, list(cz.specs[t].values()))
         th.start()
         th.join(TIMEOUT)
         solo = ch.replies
         mine = [e for e in steps if e['t'] == t]
         for e, s in zip(mine, solo):
             e['solo'] = dict(solo_of(s), has=True, det=True)
-    return {'id': trace_id, 'steps': steps, 'concrete': cz.opt, 'yields': nyield}
+    return {'id': trace_id, 'steps': steps, 'concrete': cz.opt, 'yields': nyield, 'cells': list(specs.values())}
